@@ -58,6 +58,9 @@ def register(m):
     m("C02", "b4-is-ge-guard-returns-none-regression", "symplyphysics/core/symbols/quantities.py",
       "        raise ValueError(f\"Dimension of '{rhs}' is {rhs.dimension}, but it should be {lhs.dimension}\")", "        return None", "P7",
       note="the first repair (ec63bf7) was incomplete; completed in 0b985b3")
+    m("C05", "b4-explicit-dimension-relabels-regression", "symplyphysics/core/symbols/quantities.py",
+      "            if not dimension_system.is_dimensionless(collected) and not dimension_system.equivalent_dims(\n                    collected, dimension.subs(\"angle\", S.One)):\n                raise ValueError(f\"Dimension of '{expr}' is {dimension_}, but it should be {dimension}\")\n",
+      "            pass\n", "S4", note="the genuine defect repaired in 981b32b")
     # C09 N1: factories hand out fresh systems
     m("C09", "b2-transform-returns-argument", CSYS,
       ") -> CoordinateSystem:\n    new_coord_system = from_system.coord_system.create_new(",
